@@ -4,6 +4,7 @@ import (
 	"encoding/json"
 	"fmt"
 	"math"
+	"reflect"
 	"sort"
 
 	"github.com/unixpickle/model3d/model2d"
@@ -349,12 +350,20 @@ func checkBool3(c boolCase, o *kit.Obs) error {
 	}
 	// every combinator gets its own copy of the slice (SolidMux keeps the slice it is given)
 	cp := func(x []model3d.Solid) []model3d.Solid { return append([]model3d.Solid(nil), x...) }
-	s.joined = w(model3d.JoinedSolid(cp(solids)))
-	s.joinedP = w(model3d.JoinedSolid(cp(permuted)))
-	s.inter = w(model3d.IntersectedSolid(cp(solids)))
-	s.interP = w(model3d.IntersectedSolid(cp(permuted)))
-	s.opt = w(model3d.JoinedSolid(cp(solids)).Optimize())
-	s.optP = w(model3d.JoinedSolid(cp(permuted)).Optimize())
+	// ... except for one slice that the caller keeps using, as in parts := ...; JoinedSolid(parts).Optimize():
+	// the combinators may read it but it stays the caller's list of operands, in the caller's order
+	mine, mineP := cp(solids), cp(permuted)
+	s.joined = w(model3d.JoinedSolid(mine))
+	s.joinedP = w(model3d.JoinedSolid(mineP))
+	s.inter = w(model3d.IntersectedSolid(mine))
+	s.interP = w(model3d.IntersectedSolid(mineP))
+	s.opt = w(model3d.JoinedSolid(mine).Optimize())
+	s.optP = w(model3d.JoinedSolid(mineP).Optimize())
+	for k := range mine {
+		if !sameOperand(mine[k], solids[k]) || !sameOperand(mineP[k], permuted[k]) {
+			return fmt.Errorf("JoinedSolid.Optimize() rearranged the caller's slice of operands: position %d holds another solid now", k)
+		}
+	}
 	if n >= 2 {
 		s.sub = w(&model3d.SubtractedSolid{Positive: model3d.JoinedSolid(cp(solids[:c.Split])), Negative: model3d.JoinedSolid(cp(solids[c.Split:]))})
 		s.sub01 = w(&model3d.SubtractedSolid{Positive: solids[0], Negative: solids[1]})
@@ -410,12 +419,20 @@ func checkBool2(c bool2Case, o *kit.Obs) error {
 		})
 	}
 	cp := func(x []model2d.Solid) []model2d.Solid { return append([]model2d.Solid(nil), x...) }
-	s.joined = w(model2d.JoinedSolid(cp(solids)))
-	s.joinedP = w(model2d.JoinedSolid(cp(permuted)))
-	s.inter = w(model2d.IntersectedSolid(cp(solids)))
-	s.interP = w(model2d.IntersectedSolid(cp(permuted)))
-	s.opt = w(model2d.JoinedSolid(cp(solids)).Optimize())
-	s.optP = w(model2d.JoinedSolid(cp(permuted)).Optimize())
+	// ... except for one slice that the caller keeps using, as in parts := ...; JoinedSolid(parts).Optimize():
+	// the combinators may read it but it stays the caller's list of operands, in the caller's order
+	mine, mineP := cp(solids), cp(permuted)
+	s.joined = w(model2d.JoinedSolid(mine))
+	s.joinedP = w(model2d.JoinedSolid(mineP))
+	s.inter = w(model2d.IntersectedSolid(mine))
+	s.interP = w(model2d.IntersectedSolid(mineP))
+	s.opt = w(model2d.JoinedSolid(mine).Optimize())
+	s.optP = w(model2d.JoinedSolid(mineP).Optimize())
+	for k := range mine {
+		if !sameOperand(mine[k], solids[k]) || !sameOperand(mineP[k], permuted[k]) {
+			return fmt.Errorf("JoinedSolid.Optimize() rearranged the caller's slice of operands: position %d holds another solid now", k)
+		}
+	}
 	if n >= 2 {
 		s.sub = w(&model2d.SubtractedSolid{Positive: model2d.JoinedSolid(cp(solids[:c.Split])), Negative: model2d.JoinedSolid(cp(solids[c.Split:]))})
 		s.sub01 = w(&model2d.SubtractedSolid{Positive: solids[0], Negative: solids[1]})
@@ -557,4 +574,31 @@ func checkStack(c stackCase, o *kit.Obs) error {
 		o.Label("pts:only-in-upper-operand")
 	}
 	return nil
+}
+
+// sameOperand tells whether two interface values are the same operand object, as far as that can be told
+// without calling it: same dynamic type and, where the type allows it, equal value (pointers: same pointer).
+func sameOperand(a, b interface{}) (same bool) {
+	va, vb := reflect.ValueOf(a), reflect.ValueOf(b)
+	if va.IsValid() != vb.IsValid() || (va.IsValid() && va.Type() != vb.Type()) {
+		return false
+	}
+	if !va.IsValid() {
+		return true
+	}
+	switch va.Kind() {
+	case reflect.Slice:
+		return va.Len() == vb.Len() && (va.Len() == 0 || va.Pointer() == vb.Pointer())
+	case reflect.Func, reflect.Map:
+		return va.Pointer() == vb.Pointer()
+	}
+	if !va.Type().Comparable() {
+		return true
+	}
+	defer func() {
+		if recover() != nil {
+			same = true // an interface field holds something that cannot be compared
+		}
+	}()
+	return a == b
 }
